@@ -261,7 +261,20 @@ func (t Table) getIndexForeignKey(fkName string) int {
 	return -1
 }
 
+// withoutForeignKeyMarks drops the bare reference options AddForeignKey attaches to a column
+func withoutForeignKeyMarks(opts []*ast.ColumnOption) []*ast.ColumnOption {
+	res := make([]*ast.ColumnOption, 0, len(opts))
+	for i := range opts {
+		if opts[i].Tp == ast.ColumnOptionReference && opts[i].Refer == nil {
+			continue
+		}
+		res = append(res, opts[i])
+	}
+	return res
+}
+
 func hasChangedMysqlOptions(new, old []*ast.ColumnOption) bool {
+	new, old = withoutForeignKeyMarks(new), withoutForeignKeyMarks(old)
 	if len(new) != len(old) {
 		return true
 	}
